@@ -66,9 +66,12 @@ def zbool(x):
 class Recorder:
     """Collects everything one job (one env x config harness) did."""
 
-    def __init__(self, prop, job, tier, seed, qtimeout_s):
+    def __init__(self, prop, job, tier, seed, qtimeout_s, job_budget_s=None):
         self.prop, self.job, self.tier, self.seed = prop, job, tier, seed
         self.qtimeout_s = qtimeout_s
+        # wall-clock budget of the whole job: once 90 % of it is used, remaining queries are answered `unknown` at once (recorded as
+        # inconclusive) so that the job still RETURNS what it decided instead of being killed with everything lost
+        self.deadline = (time.time() + 0.9 * job_budget_s) if job_budget_s else None
         self.obl = []          # {name, result, solver_s}
         self.funcs = {}        # encoded function -> {eqns, sym_eqns, hash}
         self.violations = []   # {key, detail, replay}
@@ -119,8 +122,14 @@ class Recorder:
 
     # ---- solver
     def _solve(self, clauses, timeout_s=None):
+        if self.deadline is not None and time.time() > self.deadline:
+            self.n_queries += 1
+            return "unknown", None, 0.0
         s = z3.Solver()
-        s.set("timeout", int(1000 * (timeout_s or self.qtimeout_s)))
+        budget = timeout_s or self.qtimeout_s
+        if self.deadline is not None:
+            budget = max(1.0, min(budget, self.deadline - time.time()))
+        s.set("timeout", int(1000 * budget))
         s.set("random_seed", self.seed % 1000)
         for c in clauses:
             s.add(c)
@@ -196,7 +205,7 @@ class Recorder:
         rec = {"name": name, "result": r, "solver_s": round(dt, 3), "kind": "internal" if internal else "property"}
         self.obl.append(rec)
         if r == "unknown":
-            self.inconclusive.append(f"{key}: solver returned unknown after {dt:.0f}s")
+            self.inconclusive.append(f"{key}: solver returned unknown after {dt:.0f}s" + (" (job budget exhausted)" if dt == 0.0 else ""))
         elif r == "sat":
             self._triage(key, m, replay, internal, None)
         for fkey, cond, e in active:
@@ -251,12 +260,12 @@ class Recorder:
 
 
 # --------------------------------------------------------------------------- pool
-def _job_main(conn, prop, tier, seed, qtimeout, modname, fname, jobname, kwargs):
+def _job_main(conn, prop, tier, seed, qtimeout, modname, fname, jobname, kwargs, job_timeout=None):
     os.environ.setdefault("JAX_PLATFORMS", "cpu")
     import importlib
     import warnings
     warnings.filterwarnings("ignore")
-    R = Recorder(prop, jobname, tier, seed, qtimeout)
+    R = Recorder(prop, jobname, tier, seed, qtimeout, job_budget_s=job_timeout)
     t0 = time.time()
     try:
         mod = importlib.import_module(modname)
@@ -283,7 +292,7 @@ def run_jobs(prop, tier, seed, jobs, workers=None, qtimeout=120, job_timeout=900
         while pending and len(running) < workers:
             jobname, modname, fname, kwargs = pending.pop(0)
             pc, cc = ctx.Pipe(duplex=False)
-            p = ctx.Process(target=_job_main, args=(cc, prop, tier, seed, qtimeout, modname, fname, jobname, kwargs))
+            p = ctx.Process(target=_job_main, args=(cc, prop, tier, seed, qtimeout, modname, fname, jobname, kwargs, job_timeout))
             p.start()
             cc.close()
             running.append((p, pc, jobname, time.time()))
